@@ -406,4 +406,92 @@ func runC10(res *Result, d *Driver, tier string, seed uint64) {
 		}
 		os.RemoveAll(env.root)
 	}
+	// ---- a container that answers late: its init is stopped while a Ping waits for the answer (longer than the Ping's
+	// limit) and continued afterwards. Whatever the Ping returned, from then on either the environment is unusable (every
+	// call fails promptly) or every call gets its own answer — an answer that arrives late must not become the answer of
+	// a later call ----
+	{
+		reps := 1
+		if tier == "thorough" {
+			reps = 6
+		}
+		for rep := 0; rep < reps; rep++ {
+			before := childPids()
+			env, err := newEnv(container.Builder{})
+			if err != nil {
+				fatal("container: %v", err)
+			}
+			initPid := 0
+			for p := range childPids() {
+				if !before[p] {
+					initPid = p
+				}
+			}
+			stopFor := time.Duration(3200+rng.Intn(600)) * time.Millisecond
+			syscall.Kill(initPid, syscall.SIGSTOP)
+			go func() { time.Sleep(stopFor); syscall.Kill(initPid, syscall.SIGCONT) }()
+			t0 := time.Now()
+			perr := env.Ping()
+			if d := stopFor + 300*time.Millisecond - time.Since(t0); d > 0 {
+				time.Sleep(d)
+			}
+			type ans struct {
+				name string
+				own  bool // the call got an answer that can only be its own
+				fail bool // the call failed
+				what string
+			}
+			var got []ans
+			call := func(name string, f func() (own, fail bool, what string)) {
+				ch := make(chan ans, 1)
+				go func() { o, fl, w := f(); ch <- ans{name, o, fl, w} }()
+				select {
+				case a := <-ch:
+					got = append(got, a)
+				case <-time.After(20 * time.Second):
+					got = append(got, ans{name, false, false, "no answer within 20 s"})
+				}
+			}
+			call("Ping", func() (bool, bool, string) { e := env.Ping(); return e == nil, e != nil, fmt.Sprint(e) })
+			call("Delete(missing)", func() (bool, bool, string) {
+				e := env.Delete("/w/never-there")
+				// its own answer is the container's error about that path
+				return e != nil && strings.Contains(e.Error(), "never-there"), e != nil && !strings.Contains(e.Error(), "never-there"), fmt.Sprint(e)
+			})
+			call("Open(missing)", func() (bool, bool, string) {
+				rs, e := env.Open([]container.OpenCmd{{Path: "/w/none-such", Flag: os.O_RDONLY}})
+				own := e == nil && len(rs) == 1 && rs[0].File == nil && rs[0].Err != nil && strings.Contains(rs[0].Err.Error(), "none-such")
+				for _, r := range rs {
+					if r.File != nil {
+						r.File.Close()
+					}
+				}
+				return own, e != nil, fmt.Sprint(e, " ", len(rs))
+			})
+			call("Execve(exit 7)", func() (bool, bool, string) {
+				r, _ := env.runProbe(RunSpec{Script: "exit 7", Timeout: 15 * time.Second}, false)
+				return r.Status == runner.StatusNonzeroExitStatus && r.ExitStatus == 7, r.Status == runner.StatusRunnerError, fmt.Sprintf("%v/%d %s", r.Status, r.ExitStatus, r.Error)
+			})
+			call("Ping", func() (bool, bool, string) { e := env.Ping(); return e == nil, e != nil, fmt.Sprint(e) })
+			allOwn, allFail := true, true
+			var desc []string
+			for _, a := range got {
+				allOwn = allOwn && a.own
+				allFail = allFail && a.fail
+				desc = append(desc, fmt.Sprintf("%s -> %s", a.name, a.what))
+			}
+			key := fmt.Sprintf("container init stopped for %v during a Ping (which returned %v), then continued; afterwards Ping, Delete(missing), Open(missing), Execve(exit 7), Ping", stopFor, perr)
+			res.Case(key, true, "late-answer")
+			res.Traces++
+			if !allOwn && !allFail {
+				res.Mismatch(Mismatch{Kind: "oracle", What: "after an answer arrived late, either every later call fails (environment unusable) or every later call gets its own answer (C10: no reply is consumed by a later call)", Input: key, Impl: strings.Join(desc, "; "), Oracle: "violates"})
+			}
+			done := make(chan struct{})
+			go func() { env.Close(); close(done) }()
+			select {
+			case <-done:
+			case <-time.After(10 * time.Second):
+			}
+		}
+	}
 }
